@@ -153,8 +153,14 @@ def run_A(item, rec):
                 except (symx.PathAbort, symx.Unsupported, symx.Budget):
                     raise
                 except (RuntimeError, ValueError, KeyError) as e:
+                    # impossible targets legitimately raise; the KeyError on fully sliced trees is recorded in DESIGN 8.3 (not tied to C07)
                     k = f"search_raised:{type(e).__name__}"
                     rec.notes[k] = rec.notes.get(k, 0) + 1
+                    return None
+                except Exception as e:  # noqa -- any other exception of the finder is a violation candidate
+                    err = repr(e)
+                    rec.refute(ctx, True, "slice search raised", lambda m: dict(case=dict(case, max_repeats=max_repeats, how=how), ix_sl=[], predicted={}, actual={}, raised=err,
+                                                                                 target=float(symx.eval_model(m, tval)), signature=["C07A", case["inputs"], case["pre"], kind, str(outer), how, "raised", type(e).__name__]))
                     return None
                 bads, tb, act = judge(tree0, ix_sl, cost, kind, tval, outer)
                 bad_conc = any(b is True or (isinstance(b, bool) and b) for b in bads)
@@ -203,8 +209,11 @@ def run_B(item, rec):
             for seq in seqs:
                 case = dict(kind="B", inputs=list(inputs), output=output, ssa=[list(p) for p in ssa], seq=list(seq))
 
-                def harness(ctx, ssa=ssa, seq=seq, case=case):
+                cur = {}
+
+                def harness(ctx, ssa=ssa, seq=seq, case=case, cur=cur):
                     size = {c: symx.sym_int("d_" + c, 2, 8) for c in labels}
+                    cur["size"] = size
                     tree = ContractionTree.from_path(inputs, output, size, ssa_path=ssa)
                     tree.contract_stats()
                     cost = ContractionCosts.from_contraction_tree(tree)
@@ -229,7 +238,8 @@ def run_B(item, rec):
 
                     rec.refute(ctx, z3.Or(bads), "ContractionCosts.remove == rebuild from sliced tree", viol)
 
-                rec.add_explore(symx.explore(harness, max_paths=200, deadline_s=15, timeout_ms=3000))
+                rec.add_explore(symx.explore(rec.guard_harness(harness, "ContractionCosts.remove == rebuild from sliced tree", lambda m, case=case, cur=cur, ssa=ssa, seq=seq: dict(
+                    case=case, size={c: symx.eval_model(m, cur["size"][c]) for c in labels}, signature=["C07B", list(inputs), output, str(ssa), list(seq)])), max_paths=200, deadline_s=15, timeout_ms=3000))
         rec.sample(dict(part="B", inputs=list(inputs), output=output, sizes="symbolic in [2,8]"))
     rec.validated += 1
 
